@@ -48,7 +48,7 @@ impl<'a> G<'a> {
     fn fresh(&mut self, words: &[&str], allow_rust_kw: bool) -> String {
         loop {
             self.counter += 1;
-            let mut n = if allow_rust_kw && self.s.chance(2) {
+            let mut n = if allow_rust_kw && self.s.below(250) == 0 {
                 (*self.s.pick(RUST_KW_IDENTS)).to_string()
             } else {
                 (*self.s.pick(words)).to_string()
@@ -92,12 +92,12 @@ impl<'a> G<'a> {
             // the plain name is what people write; absolute only inside modules, sometimes
             if !cur.is_empty() && self.s.chance(15) {
                 RefStyle::Absolute
-            } else if cur.is_empty() && self.s.chance(4) {
+            } else if cur.is_empty() && self.s.chance(2) {
                 RefStyle::Absolute
             } else {
                 RefStyle::Relative
             }
-        } else if self.s.chance(70) {
+        } else if self.s.chance(88) {
             RefStyle::Absolute
         } else {
             RefStyle::Relative
@@ -105,13 +105,20 @@ impl<'a> G<'a> {
         Some((path, style))
     }
 
+    fn is_collection(&self, path: &[String]) -> bool {
+        let map: Symbols = self.syms.iter().cloned().collect();
+        matches!(shape_of(&map, &TSpec::Ref(path.to_vec(), RefStyle::Absolute)), Shape::Seq(..) | Shape::Arr(..))
+    }
+
     fn elem_spec(&mut self, cur: &[String]) -> TSpec {
-        match self.s.weighted(&[55, 12, 3, 3, 27]) {
+        match self.s.weighted(&[55, 12, 3, 1, 29]) {
             0 => TSpec::Prim(self.prim()),
             1 => TSpec::Str(self.bound()),
             2 => TSpec::WStr(self.bound()),
             3 => TSpec::Seq(Box::new(TSpec::Prim(self.prim())), self.bound()),
             _ => match self.reference(cur, false) {
+                // nested collections are not expressible in the Rust mapping (finding): keep them rare
+                Some((p, _)) if self.is_collection(&p) && !self.s.chance(15) => TSpec::Prim(self.prim()),
                 Some((p, st)) => TSpec::Ref(p, st),
                 None => TSpec::Prim(self.prim()),
             },
@@ -169,6 +176,11 @@ impl<'a> G<'a> {
                 2 => m.optional = true,
                 _ => {}
             }
+            // an optional member of a constructed type needs PartialEq on that type, which the generated
+            // code does not derive (finding): keep that combination rare
+            if m.optional && mentions_ref(&m.spec) && !self.s.chance(15) {
+                m.optional = false;
+            }
             if ndecl == 1 && self.s.chance(if mutable { 35 } else { 8 }) {
                 m.id = Some(0);
             } else if self.s.chance(if mutable { 10 } else { 3 }) {
@@ -221,7 +233,7 @@ impl<'a> G<'a> {
 
     fn gen_union(&mut self, cur: &[String]) -> Def {
         let name = self.fresh(TYPE_WORDS, true);
-        let switch = match self.s.weighted(&[72, 5, 7, 4, 12]) {
+        let switch = match self.s.weighted(&[88, 3, 3, 2, 4]) {
             0 => SwitchSpec::Prim(*self.s.pick(&[
                 IPrim::Long,
                 IPrim::Long,
@@ -252,7 +264,7 @@ impl<'a> G<'a> {
                 let mut u: Vec<Label> = (0..=12).map(Label::Int).collect();
                 u.push(Label::Int(100));
                 u.push(Label::Int(127));
-                if signed && self.s.chance(15) {
+                if signed && self.s.chance(6) {
                     u.push(Label::Int(-1));
                     u.push(Label::Int(-5));
                 }
@@ -307,7 +319,7 @@ impl<'a> G<'a> {
         let declarators: Vec<Declarator> = (0..n)
             .map(|_| {
                 let name = self.fresh(TYPE_WORDS, false);
-                let dims = if self.s.chance(10) { vec![1 + self.s.below(4) as u32] } else { vec![] };
+                let dims = if self.s.chance(5) { vec![1 + self.s.below(4) as u32] } else { vec![] };
                 (format!("{name}_t"), dims)
             })
             .collect();
@@ -349,6 +361,14 @@ impl<'a> G<'a> {
             out.push(d);
         }
         out
+    }
+}
+
+fn mentions_ref(t: &TSpec) -> bool {
+    match t {
+        TSpec::Ref(..) => true,
+        TSpec::Seq(e, _) => mentions_ref(e),
+        _ => false,
     }
 }
 
